@@ -40,6 +40,7 @@ use std::ptr::{null, null_mut};
 use std::sync::atomic::{AtomicBool, AtomicI64, AtomicU32, AtomicUsize, Ordering};
 
 include!("w8_ffi.inc");
+include!("w8_common.inc");
 
 // ------------------------------------------------------------------------------------------------
 // the auditing allocator
@@ -541,8 +542,59 @@ fn gen_calls(rng: &mut Prng, small: bool) -> Vec<Value> {
     calls
 }
 
+/// Diff-directed block (VERIF_HINTS): hinted strings as header names / values, action contents, urls, proxy lists, payloads;
+/// hinted sizes as buffer lengths and capacities, numbers of headers, numbers of calls.
+fn gen_hinted(h: &Hints) -> Vec<Vec<Value>> {
+    let mut seqs: Vec<Vec<Value>> = Vec::new();
+    for t in w8_hint_strs(h) {
+        let t = t.as_str();
+        let action = json!({"status_code_update": null, "header_filters": [{"filter": {"action": "add", "header": t, "value": t, "id": null, "target_hash": null}, "on_response_status_codes": [], "exclude_response_status_codes": false, "rule_id": t},
+            {"filter": {"action": "override", "header": "X", "value": format!("{t}\u{0}{t}"), "id": null, "target_hash": null}, "on_response_status_codes": [], "exclude_response_status_codes": false, "rule_id": "r"}],
+            "body_filters": [{"filter": {"action": "append_text", "content": t, "id": null, "target_hash": null}, "on_response_status_codes": [], "exclude_response_status_codes": false, "rule_id": "r"}],
+            "rule_ids": [t], "rule_traces": [], "rules_applied": [], "log_override": null}).to_string();
+        seqs.push(vec![
+            json!({"op": "action_new", "json": action}),
+            json!({"op": "headers", "a": 0, "headers": [[t, t], ["X", t]], "code": 200, "add": true}),
+            json!({"op": "hmap_read", "s": 1}),
+            json!({"op": "filter_new", "a": 0, "code": 200, "headers": [["Content-Type", t], ["Content-Encoding", t]]}),
+            json!({"op": "buf_new", "bytes": hex(t.as_bytes()), "cap": t.len() + 1}),
+            json!({"op": "filter_feed", "f": 2, "b": 3}),
+            json!({"op": "filter_close", "f": 2}),
+            json!({"op": "action_ser", "s": 0}),
+            json!({"op": "hmap_new", "headers": [[t, t], [format!("{t}\u{0}"), t], [t, format!("\u{0}{t}")], ["", t], [t, ""]]}),
+            json!({"op": "hmap_read", "s": 7}),
+            json!({"op": "req_new", "via": "from_str", "url": t}),
+            json!({"op": "req_new", "via": "create", "uri": t, "host": t, "scheme": t, "method": t, "headers": [[t, t]]}),
+            json!({"op": "tp_new", "list": t}),
+            json!({"op": "req_addr", "s": 9, "addr": t, "tp": 10}),
+            json!({"op": "log_json", "r": 9, "a": 0, "headers": [["Forwarded", t]], "code": 200, "proxy": t, "time": 1, "ip": t}),
+            json!({"op": "action_new", "json": t}),
+        ]);
+    }
+    for n in h.sizes(150_000) {
+        for cap in [n.saturating_sub(1), n, n + 1, 2 * n] {
+            seqs.push(vec![json!({"op": "buf_new", "bytes": hex(&vec![b'x'; n]), "cap": cap}), json!({"op": "buf_dup", "s": 0}), json!({"op": "filter_null", "s": 1}), json!({"op": "buf_read", "s": 2}), json!({"op": "buf_drop", "s": 0})]);
+        }
+        let k = n.min(300);
+        let hs: Vec<Value> = (0..k).map(|i| json!([format!("H{i}"), "v".repeat(i % 7)])).collect();
+        seqs.push(vec![json!({"op": "action_new", "json": ACTIONS[1]}), json!({"op": "headers", "a": 0, "headers": hs.clone(), "code": 404, "add": true}), json!({"op": "hmap_new", "headers": hs}), json!({"op": "hmap_read", "s": 2}), json!({"op": "hlist_free", "s": 1})]);
+        seqs.push((0..n.min(80)).map(|_| json!({"op": "version"})).collect());
+        seqs.push(vec![json!({"op": "action_new", "json": ACTIONS[0]}), json!({"op": "filter_new", "a": 0, "code": 200, "headers": []}), json!({"op": "buf_new", "bytes": hex(&vec![b'<'; n.min(100_000)]), "cap": n}), json!({"op": "filter_feed", "f": 1, "b": 2}), json!({"op": "filter_close", "f": 1})]);
+    }
+    seqs
+}
+
 fn gen(args: &Args, emit: &mut dyn FnMut(Value)) {
     let mut rng = Prng::new(args.seed);
+    let h = hints();
+    if !h.is_empty() {
+        for calls in gen_hinted(&h) {
+            w8_watchdog::arm(60);
+            if let Ok(ex) = execute(&json!({"calls": calls}), true) {
+                emit(json!({"calls": ex.filled, "sizes": ex.sizes}));
+            }
+        }
+    }
     for _ in 0..args.n {
         // generate, then let the real library fill in what it produced; a sequence the executor refuses
         // (the generator's bookkeeping of slots is approximate where NULL results change the protocol) is re-drawn
@@ -568,6 +620,8 @@ enum H {
     Filter(*mut FilterBodyAction, Option<Box<FilterBodyAction>>),
     Request(*mut Request, Option<Box<Request>>),
     Hlist(*const CHeaderMap),
+    /// the caller's own list, given back by `header_filter_filter(NULL action, list)`: never to be freed as a result
+    Alias,
     Tp(*const CTrustedProxies),
 }
 
@@ -929,7 +983,7 @@ fn execute(case: &Value, fill: bool) -> Result<Exec, String> {
                             oracle.push(("hdrs", Value::Null));
                             // nothing new to own: the slot stands for the caller's own list (releasing it is a no-op)
                             result = json!({"slot": slots.len(), "owned": [], "alias": true});
-                            slots.push(Slot { h: H::Hlist(null()), released: false });
+                            slots.push(Slot { h: H::Alias, released: false });
                         } else {
                             let got = unsafe { read_hlist(out) };
                             let want = twin.as_mut().map(|t| t.filter_headers(to_headers(&input), code, add, None)).unwrap_or_default();
@@ -1234,6 +1288,7 @@ fn execute(case: &Value, fill: bool) -> Result<Exec, String> {
         ex.results.push(result);
     }
     ex.unreleased = slots.iter().enumerate().filter(|(_, s)| !s.released).map(|(i, _)| i).collect();
+    let _ = &H::Alias;
     // the caller now releases whatever it still holds (trusted proxies cannot be released)
     let base = calls.len();
     for (k, sl) in slots.iter_mut().enumerate() {
@@ -1249,7 +1304,7 @@ fn execute(case: &Value, fill: bool) -> Result<Exec, String> {
                 H::Filter(f, _) => redirectionio_action_body_filter_drop(*f),
                 H::Request(r, _) => redirectionio_request_drop(*r),
                 H::Hlist(h) => free_hlist_checked(*h, "final release", &mut m),
-                H::Tp(_) => {}
+                H::Alias | H::Tp(_) => {}
             }
         });
         ex.mismatches.extend(m.into_iter().map(|x| format!("slot {k}: {x}")));
@@ -1280,6 +1335,7 @@ fn execute(case: &Value, fill: bool) -> Result<Exec, String> {
 }
 
 fn run(case: &Value) -> Obs {
+    w8_watchdog::arm(60);
     if case.get("selftest").is_some() {
         // the auditing allocator checks itself in a child process (corpus/C18/selftest.jsonl: replayed on every run)
         let ok = std::env::current_exe().ok().and_then(|e| std::process::Command::new(e).arg("selftest").stdout(std::process::Stdio::null()).status().ok()).map(|s| s.code() == Some(0)).unwrap_or(false);
